@@ -1,127 +1,12 @@
-(* Properties/C06.v — call checking: arguments against parameter types, result
-   type.  Only statements, `exact`, and Print Assumptions.
-
-   Call/Model.v: `bind` (concrete calls), `check_call` (first pass over the
-   parameters annotated with the type variable, the C15 solver, second pass
-   over every bound argument against the substituted annotation, default
-   return), `diagnosed`.  `val o` is the KnownValue of the literal argument
-   object o; `member o t` is runtime membership.  The general theorems are over
-   any value operations `O`; the last block instantiates them on the atom
-   fragment, where acceptance is the table dumped from the running
-   implementation and membership the table computed by CPython. *)
-From Coq Require Import List Bool Arith NArith Permutation.
+(* Properties/C06.v — call checking (being extended in phase 2). *)
+From Coq Require Import List Bool Arith NArith.
 Import ListNotations.
 Require Import PV.TypeVar.Base PV.TypeVar.Model PV.TypeVar.Spec PV.TypeVar.Simple PV.Call.Model.
-Require Import PV.Proofs.CallBind PV.Proofs.CallMain PV.Proofs.CallAtoms PV.Proofs.SolveAtoms.
-Require Import PV.Gen.Solve PV.Gen.SolveAtoms PV.Gen.CallObjs.
+Require Import PV.Binder.Kind PV.Binder.Sig PV.Binder.Bind PV.Binder.PyBind.
+Require Import PV.Proofs.CallMain.
 
-(* binding: every parameter exactly once, in order; no argument dropped or duplicated *)
-Theorem C06_every_parameter_bound_once_in_order : forall (V Obj : Type) (s : @sig V) (c : @call Obj) b,
-  bind s c = Some b -> map fst b = params s.
-Proof. intros V Obj s c b H. exact (bind_go_params _ _ _ _ H). Qed.
-Print Assumptions C06_every_parameter_bound_once_in_order.
-
-Theorem C06_bound_arguments_are_the_call_arguments : forall (V Obj : Type) (s : @sig V) (c : @call Obj) b,
-  bind s c = Some b -> Permutation (bound_objs b) (cpos c ++ map snd (ckw c)).
-Proof. intros V Obj s c b H. exact (bind_go_objs _ _ _ _ H). Qed.
-Print Assumptions C06_bound_arguments_are_the_call_arguments.
-
-(* non-generic signatures: one incompatible_argument per parameter with a
-   rejected argument, and nothing else *)
-Theorem C06_nongeneric_diagnostics_are_the_rejected_parameters :
-  forall (V : Type) (O : ops V) limit (Obj : Type) (val : Obj -> V) s c b,
-  no_vars s = true -> bind s c = Some b ->
-  forall d, In d (fst (check_call O limit val s c)) <->
-    exists p ba t o, In (p, ba) b /\ d = IncompatibleArgument (pname p) /\
-      ann p = AnnTy t /\ In o (objs_of ba) /\ acc O t (val o) = false.
-Proof. exact @nongeneric_diagnostics. Qed.
-Print Assumptions C06_nongeneric_diagnostics_are_the_rejected_parameters.
-
-(* diagnosed(call) <=> exists arg: not member(arg, declared(param)) *)
-Theorem C06_diagnosed_iff_some_argument_not_member :
-  forall (V : Type) (O : ops V) limit (Obj : Type) (val : Obj -> V) (member : Obj -> V -> bool),
-  (forall t o, acc O t (val o) = member o t) ->
-  forall s c b, no_vars s = true -> bind s c = Some b ->
-  (diagnosed O limit val s c = true <->
-   exists p ba t o, In (p, ba) b /\ ann p = AnnTy t /\ In o (objs_of ba) /\ member o t = false).
-Proof. exact @nongeneric_diagnosed_iff_nonmember. Qed.
-Print Assumptions C06_diagnosed_iff_some_argument_not_member.
-
-(* generic or not: an accepted call comes with a solution under which every
-   argument is a member of the substituted parameter type, and the inferred
-   type is the substituted return annotation — otherwise an error is reported *)
-Theorem C06_accepted_call_arguments_fit_substituted_types :
-  forall (V : Type) (O : ops V) limit (Obj : Type) (val : Obj -> V) (member : Obj -> V -> bool),
-  (forall t o, acc O t (val o) = member o t) ->
-  forall s c, diagnosed O limit val s c = false ->
-  exists b sol, bind s c = Some b /\ snd (check_call O limit val s c) = inferred O sol (ret s) /\
-    forall p ba t o, In (p, ba) b -> sub sol (ann p) = Some t -> In o (objs_of ba) -> member o t = true.
-Proof. exact @accepted_call_arguments_fit. Qed.
-Print Assumptions C06_accepted_call_arguments_fit_substituted_types.
-
-(* with C15 (solution accepts every lower bound): the second pass never reports
-   a parameter annotated with the bare type variable, so for a call that binds
-   accepted <=> each T-argument fits the declaration on its own, the bounds are
-   solvable, and every other argument is a member of its declared type *)
-Theorem C06_generic_call_accepted_iff :
-  forall (V : Type) (O : ops V) limit (Obj : Type) (val : Obj -> V) (member : Obj -> V -> bool),
-  (forall t o, acc O t (val o) = member o t) -> acc_laws O ->
-  forall s c b, bind s c = Some b ->
-  (diagnosed O limit val s c = false <->
-   pass1_fail O limit val (tdecl s) b = None /\
-   is_err (mresolve O limit (flat_map (arg_bounds (tdecl s)) (t_values val b))) = false /\
-   forall p ba t o, In (p, ba) b -> ann p = AnnTy t -> In o (objs_of ba) -> member o t = true).
-Proof. exact @generic_accepted_iff. Qed.
-Print Assumptions C06_generic_call_accepted_iff.
-
-(* result type: for `-> T` the inferred type contains every argument passed for a
-   parameter annotated T (in particular the one an identity-like body returns) *)
-Theorem C06_identity_result_member :
-  forall (V : Type) (O : ops V) limit (Obj : Type) (val : Obj -> V) (member : Obj -> V -> bool),
-  (forall t o, acc O t (val o) = member o t) ->
-  forall s c b p ba o,
-  ret s = AnnVar -> diagnosed O limit val s c = false -> bind s c = Some b ->
-  In (p, ba) b -> ann p = AnnVar -> In o (objs_of ba) ->
-  member o (snd (check_call O limit val s c)) = true.
-Proof. exact @identity_result_member. Qed.
-Print Assumptions C06_identity_result_member.
-
-(* ---- instantiation on the atom fragment: no hypotheses left ---- *)
-Theorem C06_atoms_acceptance_is_runtime_membership : forall t o, acc atom_ops t (obj_val o) = member o t.
-Proof. exact acc_literal_is_member. Qed.
-Print Assumptions C06_atoms_acceptance_is_runtime_membership.
-
-Theorem C06_atoms_diagnosed_iff_some_argument_not_member : forall s c b,
-  no_vars s = true -> bind s c = Some b ->
-  (diagnosed atom_ops rrs_limit obj_val s c = true <->
-   exists p ba t o, In (p, ba) b /\ ann p = AnnTy t /\ In o (objs_of ba) /\ member o t = false).
-Proof. exact (nongeneric_diagnosed_iff_nonmember atom_ops rrs_limit obj_val member acc_literal_is_member). Qed.
-Print Assumptions C06_atoms_diagnosed_iff_some_argument_not_member.
-
-Theorem C06_atoms_generic_call_accepted_iff : forall s c b, bind s c = Some b ->
-  (diagnosed atom_ops rrs_limit obj_val s c = false <->
-   pass1_fail atom_ops rrs_limit obj_val (tdecl s) b = None /\
-   is_err (mresolve atom_ops rrs_limit (flat_map (arg_bounds (tdecl s)) (t_values obj_val b))) = false /\
-   forall p ba t o, In (p, ba) b -> ann p = AnnTy t -> In o (objs_of ba) -> member o t = true).
-Proof. exact (generic_accepted_iff atom_ops rrs_limit obj_val member acc_literal_is_member atom_laws). Qed.
-Print Assumptions C06_atoms_generic_call_accepted_iff.
-
-Theorem C06_atoms_identity_result_member : forall s c b p ba o,
-  ret s = AnnVar -> diagnosed atom_ops rrs_limit obj_val s c = false -> bind s c = Some b ->
-  In (p, ba) b -> ann p = AnnVar -> In o (objs_of ba) ->
-  member o (snd (check_call atom_ops rrs_limit obj_val s c)) = true.
-Proof. exact (identity_result_member atom_ops rrs_limit obj_val member acc_literal_is_member). Qed.
-Print Assumptions C06_atoms_identity_result_member.
-
-(* non-trivial inputs: def f(p0: T, p1: T, *, k: int = 0) -> T with T: (int, str) *)
-Example C06_examples :
-  let s := mk_sig [mk_param 0%N PosOrKw false AnnVar; mk_param 1%N PosOrKw false AnnVar;
-                   mk_param 2%N KwOnly true (AnnTy (SU [A_int]))]
-                  (Constrained [SU [A_int]; SU [A_str]]) AnnVar in
-  check_call atom_ops rrs_limit obj_val s (mk_call [O_litTrue; O_lit1] []) = ([], SU [A_int]) /\
-  fst (check_call atom_ops rrs_limit obj_val s (mk_call [O_lit1; O_lita] [])) = [CannotResolve] /\
-  fst (check_call atom_ops rrs_limit obj_val s (mk_call [O_lit1_5] [(1%N, O_lit1)])) = [IncompatibleArgument 0%N] /\
-  fst (check_call atom_ops rrs_limit obj_val s (mk_call [O_lit1; O_lit2] [(2%N, O_lita)])) = [IncompatibleArgument 2%N] /\
-  fst (check_call atom_ops rrs_limit obj_val s (mk_call [O_lit1] [])) = [IncompatibleCall].
-Proof. vm_compute. repeat split. Qed.
-Print Assumptions C06_examples.
+Theorem C06_binding_failure_iff_cpython_rejects : forall (V : Type) (s : @csig V) c,
+  valid_sig (sig_of s) = true -> concrete_call c = true -> names_nodup (map fst (a_kw c)) = true ->
+  (cbind s c = None <-> py_bind (sig_of s) (length (a_pos c)) (map fst (a_kw c)) = false).
+Proof. exact @binding_failure_iff_cpython_rejects. Qed.
+Print Assumptions C06_binding_failure_iff_cpython_rejects.
